@@ -173,6 +173,10 @@ func compareInt(a, b int) int {
 
 // parseNum returns the integer value and true if s is a valid number, otherwise 0 and false
 func parseNum(s string) (int, bool) {
+	// Only identifiers made of digits are numeric ("-5" or "+5" are alphanumeric in SemVer)
+	if strings.Trim(s, "0123456789") != "" {
+		return 0, false
+	}
 	if num, err := strconv.Atoi(s); err == nil {
 		return num, true
 	}
